@@ -53,6 +53,15 @@ def gen_font(rng, n):
     kinds = ["rect", "tri", "poly", "poly", "grid", "two", "L", "empty"]
     for i in range(2, n):
         k = rng.choice(kinds)
+        simple = [j for j in range(2, i) if glyphs[j].get("contours")]
+        if i > 10 and len(simple) >= 8 and rng.random() < 0.12:
+            # a composite of many components (3 .. 12 different simple glyphs, side by side)
+            cnt = min(len(simple), rng.choice([3, 7, 8, 8, 9, 12]))
+            parts = rng.sample(simple, cnt)
+            g = {"name": "g%d" % i, "adv": 900, "components": [(c, 60 * q - 200, 37 * q - 100) for q, c in enumerate(parts)]}
+            glyphs.append(g)
+            cmap[0x61 + i - 2] = i
+            continue
         if k == "comp" or (i > 6 and rng.random() < 0.25):
             a, b = (rng.sample(range(2, i), 2) if rng.random() < 0.8 else [rng.randint(2, i - 1)] * 2)
             def leaves(j):
